@@ -5,6 +5,7 @@ package checks
 import (
 	"bytes"
 	"fmt"
+	"reflect"
 	"strings"
 
 	of "github.com/contiv/libOpenflow/openflow13"
@@ -137,6 +138,17 @@ func runOps(s *subject, ops string) []string {
 	out := make([]string, len(ops))
 	for i, op := range ops {
 		switch op {
+		case 'V':
+			// the value itself: every field, exported or not, except the derived ones that encoders
+			// and size functions are known to write back (length fields and the IPv4 header length)
+			out[i] = dump.Dump(v, dump.Options{Normalise: true, Skip: c13Derived, FieldHook: func(st, f string, _ reflect.Value) (string, bool) {
+				// the plain resubmit action has no table on the wire; its encoder stores "all tables" in
+				// the unused member, which no size, encoding or decoding can observe
+				if st == "NXActionResubmit" && f == "TableID" {
+					return "(unused)", true
+				}
+				return "", false
+			}})
 		case 'S':
 			out[i] = streamSend(v.(util.Message))
 		case 'L':
@@ -155,12 +167,19 @@ func runOps(s *subject, ops string) []string {
 	return out
 }
 
+// c13Derived are the fields an encoder or a size function may legitimately write back into the value
+// (derived from the rest of it); everything else must be left as it was.
+var c13Derived = map[string]bool{"Length": true, "ActionsLen": true, "IHL": true, "HELength": true}
+
 func c13Subject(r *ev.Run, s *subject, depth int) int64 {
 	ref := map[rune]string{}
 	alpha := "LMWD"
 	if s.viaStream {
 		alpha = "LMWDS"
 	}
+	// V is an observation only (it cannot disturb anything): it is looked at once at the end of
+	// every sequence instead of being a letter of the alphabet
+	ref['V'] = runOps(s, "V")[0]
 	for _, op := range alpha {
 		ref[op] = runOps(s, string(op))[0]
 	}
@@ -176,7 +195,14 @@ func c13Subject(r *ev.Run, s *subject, depth int) int64 {
 	rec = func(prefix string) {
 		if len(prefix) >= 2 {
 			n++
-			obs := runOps(s, prefix)
+			obs := runOps(s, prefix+"V")
+			if v := obs[len(prefix)]; v != ref['V'] {
+				r.Violation("value-disturbed:"+s.kind, fmt.Sprintf("after the operations %s on %s the value itself has changed: %s", prefix, s.name, dumpDiff(ref['V'], v)),
+					map[string]any{"ops": prefix, "subject": s.rep})
+				r.Outcome("history-dependent")
+				return
+			}
+			obs = obs[:len(prefix)]
 			r.Add("transitions", int64(len(prefix)))
 			if lastGuard != "" {
 				r.Violation("argument-written:"+s.kind, fmt.Sprintf("after the operations %s on %s: %s", prefix, s.name, lastGuard), map[string]any{"ops": prefix, "subject": s.rep})
@@ -458,4 +484,24 @@ func c13(r *ev.Run, replay string) {
 	r.Set("evaluations", seqs)
 	r.Set("rule", "a state is (value, operation history); every sequence over {L,M,W,D} up to the depth runs on a fresh instance rebuilt from its builder recipe; outcome classes = last operation of a stable sequence")
 	r.Assume("observations: Len() value, encoding bytes (transaction ids masked), wrapper size+bytes, normalised deep dump of the decoded value")
+}
+
+// dumpDiff shows where two dumps part.
+func dumpDiff(a, b string) string {
+	i := 0
+	for i < len(a) && i < len(b) && a[i] == b[i] {
+		i++
+	}
+	lo := i - 60
+	if lo < 0 {
+		lo = 0
+	}
+	cut := func(s string) string {
+		hi := i + 60
+		if hi > len(s) {
+			hi = len(s)
+		}
+		return s[lo:hi]
+	}
+	return fmt.Sprintf("fresh ...%s... now ...%s...", cut(a), cut(b))
 }
